@@ -258,4 +258,39 @@ AStep(e, o) ==
 RECURSIVE AFold(_, _, _)
 AFold(e, path, k) == IF k > Len(path) THEN e ELSE AFold(AStep(e, path[k]), path, k + 1)
 ChainExpect(spc, path) == AFold([k |-> "ok", view |-> View(spc), wclaim |-> TRUE], path, 1)
+
+(* --------------- histories of construction, hashing and in-place mutation ---------------- *)
+(* Objects whose equality / hash involve ARRAY CONTENTS, built from caller-owned arrays:      *)
+(*   identity kinds  TW, PW (array weightings), rn, discr, pspace (spaces with weighting=w):  *)
+(*        the array is wrapped, NOT copied; documented equality = the identical array object  *)
+(*        (TW and PW are one weighting kind), so mutating the array never changes equality;   *)
+(*   copy kinds  grid (RectGrid(g)), part (RectPartition over such a grid), discrg            *)
+(*        (DiscretizedSpace over such a partition): the coordinates are COPIED at             *)
+(*        construction; equality = equal coordinates now (they can be changed in place        *)
+(*        through grid.coord_vectors).                                                        *)
+(* An action is [a |-> "construct" | "hash" | "mutate" | "mutate-internal", kind, w, o]:      *)
+(*   construct(kind, w)  a new object from caller array number w                              *)
+(*   hash(o)             hash(object o) is taken now (an observation; matters for caches)     *)
+(*   mutate(w)           the caller arrays number w are changed in place (one more shift)     *)
+(*   mutate-internal(o)  the coordinate array OF copy-kind object o is changed in place       *)
+(* State: [objs |-> Seq([kind, w, base, m]), ver |-> Seq(Nat)]; contents are counted in shifts.*)
+IdentityKinds == {"TW", "PW", "rn", "discr", "pspace"}
+CopyKinds == {"grid", "part", "discrg"}
+HAct(a, kind, w, o) == [a |-> a, kind |-> kind, w |-> w, o |-> o]
+HInit(nw) == [objs |-> <<>>, ver |-> [w \in 1..nw |-> 0]]
+HStep(st, act) ==
+  CASE act.a = "construct" ->
+         [st EXCEPT !.objs = Append(st.objs, [kind |-> act.kind, w |-> act.w, base |-> st.ver[act.w], m |-> 0])]
+    [] act.a = "mutate" -> [st EXCEPT !.ver[act.w] = st.ver[act.w] + 1]
+    [] act.a = "mutate-internal" -> [st EXCEPT !.objs[act.o].m = st.objs[act.o].m + 1]
+    [] act.a = "hash" -> st
+RECURSIVE HFold(_, _, _)
+HFold(st, acts, k) == IF k > Len(acts) THEN st ELSE HFold(HStep(st, acts[k]), acts, k + 1)
+\* the contents an object shows NOW
+HContent(st, o) == IF o.kind \in CopyKinds THEN o.base + o.m ELSE st.ver[o.w]
+HClass(kind) == IF kind \in {"TW", "PW"} THEN "weighting" ELSE kind
+\* documented equality
+HEq(st, a, b) ==
+  /\ HClass(a.kind) = HClass(b.kind)
+  /\ IF a.kind \in CopyKinds THEN HContent(st, a) = HContent(st, b) ELSE a.w = b.w
 =============================================================================
